@@ -70,6 +70,20 @@ func (w *World) Apply(e Event) {
 	case "shrink":
 		w.applyScale(len(w.shards) - 1)
 		w.BudgetF--
+	case "wipe":
+		// the shard's pod is re-created on an empty volume: store and runtime state are lost
+		os.RemoveAll(filepath.Join(w.shards[e.I].dir, "kvass-shard.json"))
+		if err := w.shards[e.I].s.Restart(false); err != nil {
+			panic(fmt.Sprintf("restart: %v", err))
+		}
+		for h := range w.since[e.I] {
+			delete(w.since[e.I], h)
+			delete(w.moving[e.I], h)
+		}
+		w.BudgetF--
+	case "flaky":
+		w.T[e.H].FailNext = true // the next scrape of h fails once
+		w.BudgetF--
 	default:
 		panic("unknown event " + e.Kind)
 	}
@@ -107,8 +121,11 @@ func (w *World) cycle() {
 	for _, s := range w.shards {
 		s.postLost, s.postAppliedErr, s.unready, s.getFail, s.outOfSync = false, false, false, false, false
 	}
+	w.Removed = nil
 	if len(o.Scales) > 0 {
+		w.scaling = true
 		w.applyScale(int(o.Scales[len(o.Scales)-1]))
+		w.scaling = false
 	}
 	w.Last = o
 	w.Cycles++
@@ -175,9 +192,9 @@ func (w *World) ghostUpdate(o *CycleObs) {
 // cycleInFlight a whole coordination cycle runs while the first request is being served.
 func (w *World) scrape(i int, cycleInFlight bool) {
 	s := w.shards[i]
-	info := s.s.TM.TargetsInfo()
+	// the Prometheus of the shard scrapes what the sidecar's update callbacks (config generation) told it
 	var hs []uint64
-	for _, ts := range info.Targets {
+	for _, ts := range s.s.Told {
 		for _, t := range ts {
 			hs = append(hs, t.Hash)
 		}
@@ -201,7 +218,7 @@ func (w *World) scrape(i int, cycleInFlight bool) {
 func (w *World) Enabled(progressOnly bool) []Event {
 	evs := []Event{{Kind: "cycle"}}
 	for i, s := range w.shards {
-		if len(s.s.TM.TargetsInfo().Status) > 0 {
+		if len(s.s.TM.TargetsInfo().Status) > 0 || len(s.s.Told) > 0 {
 			evs = append(evs, Event{Kind: "scrape", I: i})
 		}
 	}
@@ -245,12 +262,23 @@ func (w *World) Enabled(progressOnly bool) []Event {
 	}
 	if w.BudgetF > 0 {
 		for i := range w.shards {
-			for _, k := range []string{"post_lost", "post_applied_error", "restart", "unready", "get_fail", "out_of_sync"} {
+			kinds := []string{"post_lost", "post_applied_error", "restart", "unready", "get_fail", "out_of_sync"}
+			if w.Cfg.MoreFaults {
+				kinds = append(kinds, "wipe")
+			}
+			for _, k := range kinds {
 				evs = append(evs, Event{Kind: k, I: i})
 			}
 		}
 		if len(w.shards) > 1 {
 			evs = append(evs, Event{Kind: "shrink"})
+		}
+		if w.Cfg.MoreFaults {
+			for _, h := range w.order {
+				if t := w.T[h]; t.Discovered && !t.Down && !t.FailNext {
+					evs = append(evs, Event{Kind: "flaky", H: h})
+				}
+			}
 		}
 	}
 	return evs
@@ -264,7 +292,7 @@ func (w *World) Key() string {
 	fmt.Fprintf(&sb, "W%d F%d D%d|", w.BudgetW, w.BudgetF, w.BudgetD)
 	for _, h := range w.order {
 		t := w.T[h]
-		fmt.Fprintf(&sb, "T%d:%v/%v/%v/%d/%d ", h, t.Discovered, t.Healthy, t.Down, t.Kept, t.Total)
+		fmt.Fprintf(&sb, "T%d:%v/%v/%v%v/%d/%d ", h, t.Discovered, t.Healthy, t.Down, t.FailNext, t.Kept, t.Total)
 	}
 	for i, s := range w.shards {
 		info := s.s.TM.TargetsInfo()
@@ -299,6 +327,15 @@ func (w *World) Key() string {
 			}
 			fmt.Fprintf(&sb, "%d:%s/%s/%d/%d/%d/%v ", h, e.TargetState, e.Health, tm, e.Series, e.TotalSeries, e.VerifLastSeries())
 		}
+		// what the shard's Prometheus was told (differs from the assignment only through a defect)
+		var told []string
+		for _, ts := range s.s.Told {
+			for _, t := range ts {
+				told = append(told, fmt.Sprint(t.Hash))
+			}
+		}
+		sort.Strings(told)
+		sb.WriteString(" told:" + strings.Join(told, ","))
 		// ghost bookkeeping (capped like the counters)
 		var gh []uint64
 		for h := range w.since[i] {
